@@ -128,7 +128,7 @@ theorem PT.hash_length (H : Bytes → Bytes) (hlen : ∀ x, (H x).length = 32) (
   cases t <;> simp [PT.hash, emptyHash, hlen]
 
 theorem pad32_of_length (b : Bytes) (h : b.length = 32) : pad32 b = b := by
-  simp [pad32, List.take_append_of_le_length, h]
+  simp [pad32, h]
 
 /-- what `DeserializeNode` makes of the entry of child `c` in an honestly persisted branch -/
 def PT.refOf (H : Bytes → Bytes) : PT → WN
@@ -178,10 +178,19 @@ theorem pickChild_refOf (H : Bytes → Bytes) (ch : Nib → PT) (is : List Nib) 
   | cons i tl ih =>
     simp only [pickChild, PT.pick, PT.refOf_isNil, PT.refOf_weight, ih]
 
+theorem nat_mem_le_sum (l : List Nat) (a : Nat) (h : a ∈ l) : a ≤ l.sum := by
+  induction l with
+  | nil => cases h
+  | cons x tl ih =>
+    simp only [List.sum_cons]
+    cases h with
+    | head => omega
+    | tail _ h' => have := ih h'; omega
+
 theorem PT.weight_child_le (ch : Nib → PT) (i : Nib) : (ch i).weight ≤ (PT.branch ch).weight := by
   simp only [PT.weight]
   have : (ch i).weight ∈ allNib.map (fun i => (ch i).weight) := List.mem_map.mpr ⟨i, by simp [allNib], rfl⟩
-  exact List.le_sum_of_mem this
+  exact nat_mem_le_sum _ _ this
 
 theorem deserializeNode_branch (H : Bytes → Bytes) (hlen : ∀ x, (H x).length = 32) (ch : Nib → PT)
     (hw : (PT.branch ch).weight < 2 ^ 64) :
@@ -196,7 +205,8 @@ theorem deserializeNode_branch (H : Bytes → Bytes) (hlen : ∀ x, (H x).length
   have hl : ¬ (allNib.map (fun i => PT.childEntry H (ch i))).length > branchNodeLength := by
     simp [allNib, branchNodeLength]
   have e1 : (allNib.map (fun i => PT.childEntry H (ch i))) = allNib.map (PT.childEntry H ∘ ch) := rfl
-  simp only [deserializeNode, PT.persist, hl, if_false, e1, hd]
+  have hl' : ¬ (allNib.map (PT.childEntry H ∘ ch)).length > branchNodeLength := by rw [← e1]; exact hl
+  simp only [deserializeNode, PT.persist, e1, hd, if_neg hl']
   have e2 : ofList (allNib.map (PT.refOf H ∘ ch)) = fun i => PT.refOf H (ch i) := ofList_map_allNib' _
   have e3 : (allNib.map (PT.weight ∘ ch)).sum = (PT.branch ch).weight := rfl
   rw [e2, e3, u64, Nat.mod_eq_of_lt hw]
@@ -220,6 +230,87 @@ theorem deserializeNode_short (H : Bytes → Bytes) (hlen : ∀ x, (H x).length 
     have := be64Dec_be64 c.weight [] hw
     simp only [List.append_nil] at this
     rw [if_pos (by simp [be64_length]), this]
-  simp only [s1, s2, s3]
+  simp [s1, s2, s3]
+
+theorem PT.pick_some_of_le (ch : Nib → PT) (is : List Nib) (b : Nat) (hb1 : 1 ≤ b)
+    (hb : b ≤ (is.map (fun i => (ch i).weight)).sum) :
+    ∃ i b', PT.pick ch is b = some (i, b') ∧ 1 ≤ b' ∧ b' ≤ (ch i).weight := by
+  induction is generalizing b with
+  | nil => simp at hb; omega
+  | cons i tl ih =>
+    simp only [List.map_cons, List.sum_cons] at hb
+    unfold PT.pick
+    by_cases hn : (ch i).isNone
+    · have hw : (ch i).weight = 0 := by cases h : ch i <;> simp_all [PT.isNone, PT.weight]
+      simp only [hn, if_true]
+      exact ih b hb1 (by omega)
+    · simp only [hn]
+      by_cases hle : b ≤ (ch i).weight
+      · exact ⟨i, b, by simp [hle], hb1, hle⟩
+      · simp only [hle, if_false]
+        exact ih _ (by omega) (by omega)
+
+/-- the honest proof verifies: the verifier rebuilds a node whose hash is the hash of the trie and returns the value
+    of the leaf the weight-ordered descent reaches -/
+theorem verify_honest (H : Bytes → Bytes) (hlen : ∀ x, (H x).length = 32) (t : PT) (b : Nat) (tail : List PairD)
+    (hb1 : 1 ≤ b) (hb : b ≤ t.weight) (hw : t.weight < 2 ^ 64) :
+    ∃ n k v, t.owner b = some (k, v) ∧
+      verifyProof H ((t.proofPairs H b).map PairD.ok ++ tail) b = .ok (n, v, tail) ∧
+      (calcHash H n).2 = t.hash H ∧ n.hashField H = t.hash H ∧ n.isNil = false := by
+  induction t generalizing b tail with
+  | none => simp [PT.weight] at hb; omega
+  | value v w =>
+    simp only [PT.weight] at hb hw
+    have hnb : ¬ b > w := by omega
+    refine ⟨.value (H (be64 w ++ v)) v w true, [], v, rfl, ?_, ?_, rfl, rfl⟩
+    · simp [PT.proofPairs, PT.persist, verifyProof, deserializeNode, hnb, rehash, calcHash]
+    · simp [calcHash, PT.hash]
+  | short k c ih =>
+    simp only [PT.weight] at hb hw
+    obtain ⟨n', k', v, ho, hv, hc, _, hnil⟩ := ih b tail hb1 hb hw
+    have hnb : ¬ b > (WN.hashRef (PT.hash H c) c.weight).weight := by simp [WN.weight]; omega
+    have hcn : (if n'.isNil = true then (WN.short k (H k) WN.nil true false, H k)
+        else (WN.short k (H (k ++ (calcHash H n').2)) (calcHash H n').1 true false, H (k ++ (calcHash H n').2))) =
+        (WN.short k (H (k ++ (calcHash H n').2)) (calcHash H n').1 true false, H (k ++ (calcHash H n').2)) := by
+      simp [hnil]
+    refine ⟨rehash H (.short k (PT.hash H (.short k c)) n' true false), k ++ k', v, ?_, ?_, ?_, ?_, ?_⟩
+    · have : ¬ b > c.weight := by omega
+      simp [PT.owner, this, ho]
+    · simp only [PT.proofPairs, List.map_cons, List.cons_append, verifyProof, deserializeNode_short H hlen k c hw, hnb,
+        if_false, hv]
+    · simp only [rehash, calcHash, if_true, hcn]
+      have h2 := calcHash_idem H n'
+      have hnil' : (calcHash H n').1.isNil = false := by rw [calcHash_fst_isNil]; exact hnil
+      simp [calcHash, hnil', h2, hc, PT.hash]
+    · simp [rehash, calcHash, hnil, WN.hashField, hc, PT.hash]
+    · rw [rehash, calcHash_fst_isNil]; rfl
+  | branch ch ih =>
+    have hsum : b ≤ (allNib.map (fun i => (ch i).weight)).sum := hb
+    obtain ⟨i, b', hp, hb1', hb'⟩ := PT.pick_some_of_le ch allNib b hb1 hsum
+    have hwi : (ch i).weight < 2 ^ 64 := Nat.lt_of_le_of_lt (PT.weight_child_le ch i) hw
+    obtain ⟨n', k', v, ho, hv, hc, _, hnil⟩ := ih i b' tail hb1' hb' hwi
+    have hpc : pickChild (fun i => PT.refOf H (ch i)) allNib b = some (i, b') := by rw [pickChild_refOf]; exact hp
+    -- the children hashes the rebuilt branch is hashed from are the true ones
+    have hkids : allNib.flatMap (fun j => (calcHash H (upd (fun i => PT.refOf H (ch i)) i n' j)).2) =
+        allNib.flatMap (fun j => PT.hash H (ch j)) := by
+      rw [List.flatMap_def, List.flatMap_def]
+      congr 1
+      apply List.map_congr_left
+      intro j _
+      by_cases hj : j = i
+      · subst hj; simp [upd, hc]
+      · simp [upd, hj, PT.calcHash_refOf]
+    refine ⟨rehash H (.routing (PT.hash H (.branch ch)) (upd (fun i => PT.refOf H (ch i)) i n') (PT.branch ch).weight true false),
+      nb i :: k', v, ?_, ?_, ?_, ?_, ?_⟩
+    · simp [PT.owner, hp, ho]
+    · simp only [PT.proofPairs, hp, List.map_cons, List.cons_append, verifyProof, deserializeNode_branch H hlen ch hw,
+        hpc, hv]
+    · have : (calcHash H (rehash H (.routing (PT.hash H (.branch ch)) (upd (fun i => PT.refOf H (ch i)) i n') (PT.branch ch).weight true false))).2
+          = (calcHash H (.routing (PT.hash H (.branch ch)) (upd (fun i => PT.refOf H (ch i)) i n') (PT.branch ch).weight true false)).2 := by
+        rw [rehash, calcHash_idem]
+      rw [this]
+      simp only [calcHash, if_true, List.flatMap_map, hkids, PT.hash]
+    · simp only [rehash, calcHash, if_true, WN.hashField, List.flatMap_map, hkids, PT.hash]
+    · rw [rehash, calcHash_fst_isNil]; rfl
 
 end Verif.Wmpt
